@@ -50,6 +50,7 @@ func buildIntrinsics() map[string]Intrinsic {
 		return val(nil)
 	}
 	m[hp+"verifLocksFree"] = inLocksFree
+	m[hp+"verifFingerprint"] = func(e *Exec, st *State, ci *CallInfo) Outcome { return val(e.ConcStr("")) }
 	m[hp+"verifConcreteInt"] = inConcreteInt
 	m[hp+"vAnd"] = func(e *Exec, st *State, ci *CallInfo) Outcome {
 		return val(e.C.And(ci.Args[0].(*sym.Term), ci.Args[1].(*sym.Term)))
